@@ -8,6 +8,8 @@ reader (socket segmentation, chunked in-memory reader, 8 KiB refills, ...);
 calls, prepending the returned tail (the documented protocol).
 -/
 import VarlinkVerif.Lemmas.Wire
+import VarlinkVerif.Lemmas.UpgradedLoop
+import VarlinkVerif.Model.ListenWorker
 
 namespace VV
 
@@ -128,6 +130,40 @@ theorem C02_feed_upgrade_counterexample :
     let dec : Bytes → Frame := fun _ => .req { method := "a.U", upgrade := some true }
     (feed c svc dec 4 [[1, 0, 5, 6, 7, 8, 9, 10]]).dropped = [7, 8, 9, 10] ∧
     (feed c svc dec 4 [[1, 0, 5, 6, 7, 8, 9, 10]]).tail = [5, 6] := by
+  decide
+
+/-- **C02 upgraded mode, exactly once and in order (listen worker)**: after the switch `listen`'s worker calls
+    `handle()` repeatedly on `chain(unread, reader)`.  Whatever the upgraded handler does — however much it
+    pulls per call, however much of it it processes, whatever it hands back — and however the stream is
+    segmented, at every moment  processed ++ handed back ++ not yet read  is exactly the byte stream that
+    followed the upgrading request: nothing is skipped, repeated or reordered. -/
+theorem C02_upgraded_loop_exactly_once (p : UpPolicy) (fuel : Nat) (tail : Bytes) (rest : List Bytes) :
+    (p.loop fuel tail rest).1.flatten ++ (p.loop fuel tail rest).2.1 ++ (p.loop fuel tail rest).2.2.flatten
+      = tail ++ rest.flatten :=
+  p.loop_conserves fuel tail rest
+
+/-- **C02 upgraded mode, records**: a handler that takes records (lines) as they become complete and hands the
+    unfinished one back processes, over the whole connection, exactly the complete records of the stream and is
+    left with the unfinished one — for every segmentation, and wherever `handle()`'s buffer happened to end. -/
+theorem C02_upgraded_records (tail : Bytes) (rest : List Bytes) :
+    (ListenWorker.upgradedPhase linePolicy tail rest).1.flatten = throughLastNl (tail ++ rest.flatten) ∧
+    (ListenWorker.upgradedPhase linePolicy tail rest).2 = afterLastNl (tail ++ rest.flatten) := by
+  obtain ⟨h1, h2, _⟩ := lineLoop_spec' (rest.length + 2) tail rest (by omega)
+  exact ⟨h1, h2⟩
+
+/-- … hence two segmentations of the same stream cannot be told apart by such a handler -/
+theorem C02_upgraded_records_segmentation (tail₁ tail₂ : Bytes) (rest₁ rest₂ : List Bytes)
+    (h : tail₁ ++ rest₁.flatten = tail₂ ++ rest₂.flatten) :
+    (ListenWorker.upgradedPhase linePolicy tail₁ rest₁).1.flatten =
+      (ListenWorker.upgradedPhase linePolicy tail₂ rest₂).1.flatten := by
+  rw [(C02_upgraded_records tail₁ rest₁).1, (C02_upgraded_records tail₂ rest₂).1, h]
+
+/-- non-vacuity: "bra" buffered behind the request, then "vo\nsecond li", "ne\nthi", "rd\nunfinished" -/
+example :
+    (ListenWorker.upgradedPhase linePolicy [98, 114, 97] [[118, 111, 10, 115], [110, 10, 116], [114, 10, 117]]).1
+      = [[98, 114, 97, 118, 111, 10], [115, 110, 10], [116, 114, 10]] ∧
+    (ListenWorker.upgradedPhase linePolicy [98, 114, 97] [[118, 111, 10, 115], [110, 10, 116], [114, 10, 117]]).2
+      = [117] := by
   decide
 
 /-- **C02 one byte at a time** is an instance: every byte its own chunk. -/
